@@ -246,6 +246,9 @@ def observeHandler : Handler := fun payload impl =>
             "FAIL storing the clause changed the caller's variables: want " ++ varsWant
           else if !disj && section_ impl "inq: " ≠ "[" ++ want ++ "]" then
             "FAIL clause/2 in the asserting query, after the caller bound its variables further, does not show the clause as stored (bindings made after storing leak into it): want " ++ want
+          else if (match stored with | .app ":-" (.cons _ (.cons _ .nil)) => false | _ => true) &&
+              field a "call" ≠ stored.canon.wire then
+            "FAIL calling a stored FACT with fresh arguments must answer exactly the fact (same sharing of variables): want " ++ stored.canon.wire
           else if field a "calla" ≠ field a "call" then
             "FAIL the clause added with asserta/1 does not answer as the same clause added with assertz/1 (the alternatives of one clause term are stored as a block in source order)"
           else if field a "call2" ≠ field a "call" then
